@@ -117,6 +117,8 @@ func Verify(root *etree.Element, sigpath string, extraCerts []*x509.Certificate)
 	if err != nil {
 		return nil, errors.New("xmldsig: invalid signature")
 	}
+	// timestamps are computed over the value as it appears in the document
+	rawSigv := sigv
 	if pubtype == "ecdsa" {
 		// reformat with ASN.1 structure
 		sig, err := x509tools.UnpackEcdsaSignature(sigv)
@@ -184,7 +186,7 @@ func Verify(root *etree.Element, sigpath string, extraCerts []*x509.Certificate)
 		PublicKey:       pubkey,
 		Certificates:    certs,
 		Hash:            hash,
-		EncryptedDigest: sigv,
+		EncryptedDigest: rawSigv,
 		Reference:       reference,
 	}, nil
 }
